@@ -60,23 +60,29 @@ DEFAULT_WINDOW_CALLS = [0]
 
 
 def call_split(data, rate, min_dur, max_dur, max_silence, w, style, **extra):
+    return list(call_split_lazy(data, rate, min_dur, max_dur, max_silence, w, style, **extra))
+
+
+def call_split_lazy(data, rate, min_dur, max_dur, max_silence, w, style, **extra):
+    """the object split() returns, not consumed: the statement says that split() RAISES for a bad combination - a caller that
+    writes `try: events = split(...) except ValueError:` must find out there, not at the first next()"""
     if style.startswith("reader"):
         src = AudioReader(data, block_dur=w, sampling_rate=rate, sample_width=2, channels=1)
         if style == "reader+aw":
             # for an AudioReader input w is the reader's block duration: a window keyword must not change the counting
             extra = dict(extra, **{("analysis_window" if int(w * 1000) % 2 else "aw"): (w * 2 if int(w * 100) % 2 else w / 2)})
-        return list(auditok.split(src, min_dur, max_dur, max_silence, **extra))
+        return (auditok.split(src, min_dur, max_dur, max_silence, **extra))
     if w == 0.05 and style in ("bytes", "region-method") and int(min_dur * 1e6) % 2:
         # the documented default window: the argument is simply left out
         DEFAULT_WINDOW_CALLS[0] += 1
         if style == "bytes":
-            return list(auditok.split(data, min_dur, max_dur, max_silence, sr=rate, sw=2, ch=1, **extra))
-        return list(auditok.AudioRegion(data, rate, 2, 1).split(min_dur, max_dur, max_silence, **extra))
+            return (auditok.split(data, min_dur, max_dur, max_silence, sr=rate, sw=2, ch=1, **extra))
+        return (auditok.AudioRegion(data, rate, 2, 1).split(min_dur, max_dur, max_silence, **extra))
     if style == "bytes-aw":
-        return list(auditok.split(data, min_dur, max_dur, max_silence, sr=rate, sw=2, ch=1, aw=w, **extra))
+        return (auditok.split(data, min_dur, max_dur, max_silence, sr=rate, sw=2, ch=1, aw=w, **extra))
     if style == "region-method":
-        return list(auditok.AudioRegion(data, rate, 2, 1).split(min_dur, max_dur, max_silence, analysis_window=w, **extra))
-    return list(auditok.split(data, min_dur, max_dur, max_silence, sr=rate, sw=2, ch=1, analysis_window=w, **extra))
+        return (auditok.AudioRegion(data, rate, 2, 1).split(min_dur, max_dur, max_silence, analysis_window=w, **extra))
+    return (auditok.split(data, min_dur, max_dur, max_silence, sr=rate, sw=2, ch=1, analysis_window=w, **extra))
 
 
 def accept_case(ctx, min_dur, max_dur, max_silence, w, rate):
@@ -90,13 +96,21 @@ def accept_case(ctx, min_dur, max_dur, max_silence, w, rate):
     data = make_audio([(1, 2)], max(1, W.block_size(w, rate) if w > 0 else 1))
     spelling = "bytes-aw" if (int(abs(min_dur) * 1000) + int(abs(max_dur) * 100) + rate) % 3 == 0 else "bytes"
     ctx.count("accept_grid_spelling_" + spelling)
+    deferred = False
+    style_ = spelling if (int(abs(max_dur) * 1000) + rate) % 4 else "region-method"
     try:
-        call_split(data, rate, min_dur, max_dur, max_silence, w, spelling)
-        got = "accepted"
+        it = call_split_lazy(data, rate, min_dur, max_dur, max_silence, w, style_)
+        try:
+            list(it)
+            got = "accepted"
+        except ValueError:
+            got, deferred = "ValueError", True
     except ValueError:
         got = "ValueError"
     except Exception as exc:
         got = type(exc).__name__
+    if deferred:
+        ctx.violation("split-raises-only-when-the-result-is-consumed", {"case": {"accept": [min_dur, max_dur, max_silence, w, rate], "style": style_}})
     tup = [min_dur, max_dur, max_silence, w, rate]
     ctx.case(("accept", tup), True)
     ctx.count("accept_grid_cases")
